@@ -70,14 +70,17 @@ int scen_chain(cmd_t * c) {
 
 /* ---- pairing engine (TokenPairs.tla): `pairs <spec>` with spec = ty:len:adj:co:cc;... ------------------------------------------- */
 #include "token_pairs.h"
+#include "mmd.h"
 #include "stack.h"
 #include "d_string.h"
 
 static int idx_of_start(const size_t * starts, int n, size_t s) { for (int i = 0; i < n; i++) if (starts[i] == s) return i + 1; return -1; }
 
+static unsigned char g_pairtypes[256];
+static int is_pair_type(unsigned short ty) { return ty < 256 && g_pairtypes[ty]; }
 static void pairs_dfs(token * t, int depth, const size_t * starts, int n, int * mate, int * dep, DString * conts) {
 	for (; t; t = t->next) {
-		if (t->type >= 21 && t->type <= 29 && t->child) {
+		if (t->child && idx_of_start(starts, n, t->start) > 0 && is_pair_type(t->type)) {
 			int a = idx_of_start(starts, n, t->start);
 			/* the container spans opener .. closer: the closer is the token that ends where the container ends */
 			int b = -1;
@@ -91,16 +94,53 @@ static void pairs_dfs(token * t, int depth, const size_t * starts, int n, int * 
 	}
 }
 
+static void table_json(token_pair_engine * e, DString * out) {
+	d_string_append(out, "[");
+	int first = 1;
+	for (int o = 0; o < kMaxTokenTypes; o++) for (int c = 0; c < kMaxTokenTypes; c++) {
+		unsigned short p = e->pair_type[o][c];
+		if (!p) continue;
+		int opt = (e->empty_allowed[p] ? 1 : 0) | (e->match_len[p] ? 2 : 0) | (e->should_prune[p] ? 4 : 0);
+		d_string_append_printf(out, "%s[%d,%d,%d,%d]", first ? "" : ",", o, c, (int)p, opt); first = 0;
+	}
+	d_string_append(out, "]");
+}
+
+/* pairtables <ext>: the four pairing tables of a real engine created with these extensions */
+static int scen_pairtables(cmd_t * c) {
+	mmd_engine * e = mmd_engine_create_with_string("x", (unsigned long)arg_long(&c->argv[0]));
+	token_pair_engine * tabs[4] = { e->pairings1, e->pairings2, e->pairings3, e->pairings4 };
+	ev_begin("pairtables"); ev_int("ext", arg_long(&c->argv[0]));
+	for (int i = 0; i < 4; i++) { DString * d = d_string_new(""); table_json(tabs[i], d); char k[8]; snprintf(k, sizeof k, "t%d", i + 1); ev_raw(k, d->str); d_string_free(d, true); }
+	ev_end();
+	mmd_engine_free(e, true);
+	return 1;
+}
+
+/* pairs <chain> [<table> | real:<ext>:<n>]: chain = ty:len:adj:co:cc;...   table = o:c:p:opt;... (registered in this order; default: the synthetic table of TokenPairs.tla) */
 int scen_pairs(cmd_t * c) {
+	if (!strcmp(c->name, "pairtables")) return scen_pairtables(c);
 	if (strcmp(c->name, "pairs")) return 0;
 	const char * spec = c->argv[0].s;
+	const char * tab = (c->argc > 1 && c->argv[1].s && c->argv[1].s[0] && strcmp(c->argv[1].s, "-")) ? c->argv[1].s : "11:12:21:5;11:13:22:4;14:14:23:6;15:15:24:0;";
 	int n = 0; for (const char * q = spec; *q; q++) if (*q == ';') n++;
 	size_t * starts = calloc((size_t)n + 1, sizeof(size_t)); int * mate = calloc((size_t)n + 1, sizeof(int)); int * dep = calloc((size_t)n + 1, sizeof(int));
-	token_pair_engine * e = token_pair_engine_new();
-	token_pair_engine_add_pairing(e, 11, 12, 21, PAIRING_ALLOW_EMPTY | PAIRING_PRUNE_MATCH);
-	token_pair_engine_add_pairing(e, 11, 13, 22, PAIRING_PRUNE_MATCH);
-	token_pair_engine_add_pairing(e, 14, 14, 23, PAIRING_MATCH_LENGTH | PAIRING_PRUNE_MATCH);
-	token_pair_engine_add_pairing(e, 15, 15, 24, 0);
+	mmd_engine * real = NULL;
+	token_pair_engine * e = NULL;
+	if (!strncmp(tab, "real:", 5)) {
+		long ext = 0; int which = 3; sscanf(tab + 5, "%ld:%d", &ext, &which);
+		real = mmd_engine_create_with_string("x", (unsigned long)ext);
+		e = which == 1 ? real->pairings1 : which == 2 ? real->pairings2 : which == 4 ? real->pairings4 : real->pairings3;
+	} else {
+		e = token_pair_engine_new();
+		for (const char * q = tab; *q;) {
+			int o, cl, p, opt;
+			if (sscanf(q, "%d:%d:%d:%d", &o, &cl, &p, &opt) != 4) break;
+			token_pair_engine_add_pairing(e, (unsigned short)o, (unsigned short)cl, (unsigned short)p, opt);
+			while (*q && *q != ';') q++;
+			if (*q) q++;
+		}
+	}
 	token * parent = token_new(0, 0, 0), * first = NULL;
 	size_t pos = 0; int k = 0; const char * q = spec;
 	while (*q && k < n) {
@@ -114,6 +154,8 @@ int scen_pairs(cmd_t * c) {
 		if (*q) q++;
 	}
 	parent->child = first; parent->len = pos;
+	memset(g_pairtypes, 0, sizeof g_pairtypes);
+	for (int o = 0; o < kMaxTokenTypes; o++) for (int cl = 0; cl < kMaxTokenTypes; cl++) if (e->pair_type[o][cl] && e->pair_type[o][cl] < 256) g_pairtypes[e->pair_type[o][cl]] = 1;
 	stack * s = stack_new(0);
 	token_pairs_match_pairs_inside_token(parent, e, s, 0);
 	for (int i = 0; i < n; i++) { mate[i] = -2; dep[i] = -2; }
@@ -124,9 +166,10 @@ int scen_pairs(cmd_t * c) {
 	for (int i = 0; i < n; i++) { d_string_append_printf(m, "%s%d", i ? "," : "", mate[i]); d_string_append_printf(d, "%s%d", i ? "," : "", dep[i]); }
 	d_string_append(m, "]"); d_string_append(d, "]");
 	ev_begin("pairs"); ev_int("n", n); ev_int("stack", (long)s->size); ev_raw("mate", m->str); ev_raw("depth", d->str); ev_raw("conts", conts->str);
-	ev_raw("table", "[[11,12,21,5],[11,13,22,4],[14,14,23,6],[15,15,24,0]]"); ev_end();
+	{ DString * tj = d_string_new(""); table_json(e, tj); ev_raw("table", tj->str); d_string_free(tj, true); }
+	ev_end();
 	d_string_free(m, true); d_string_free(d, true); d_string_free(conts, true);
-	stack_free(s); token_pair_engine_free(e); token_tree_free(parent);
+	stack_free(s); if (real) mmd_engine_free(real, true); else token_pair_engine_free(e); token_tree_free(parent);
 	free(starts); free(mate); free(dep);
 	return 1;
 }
